@@ -147,25 +147,7 @@ def Agree (t : Ty) : Prop := size .hlsl t = size .metal t ∧ agreeIn t = true
 
 instance (t : Ty) : Decidable (Agree t) := by unfold Agree; exact inferInstance
 
-/-! ### Classes of types used by the partial theorems -/
-mutual
-/-- `closed m t`: `t` and every struct below it end on a multiple of their own alignment (no tail
-    padding is needed anywhere) -/
-def closed (m : Mode) : Ty → Bool
-  | .arr t _ => closed m t
-  | .struct ms => endOf m ms 0 % alignMax m ms == 0 && closedAll m ms
-  | _ => true
-def closedAll (m : Mode) : Tys → Bool
-  | .nil => true
-  | .cons t ts => closed m t && closedAll m ts
-end
-
-/-- no struct *strictly below* `t` needs tail padding under rule `m` -/
-def noInnerTailPad (m : Mode) : Ty → Bool
-  | .arr t _ => closed m t
-  | .struct ms => closedAll m ms
-  | _ => true
-
+/-! ### Auxiliary measures used by the proofs -/
 mutual
 /-- number of bytes occupied by scalar data -/
 def leaf : Ty → Nat
@@ -179,9 +161,6 @@ def leafAll : Tys → Nat
   | .nil => 0
   | .cons t ts => leaf t + leafAll ts
 end
-
-/-- the HLSL structured-buffer layout of `t` has no padding at all -/
-def hlslDense (t : Ty) : Prop := size .hlsl t = leaf t
 
 mutual
 def vectorFree : Ty → Bool
